@@ -357,3 +357,27 @@ PROPS["C15"] = dict(
     level_text="Sampled documents and configurations; exact marker-level oracle.",
     level_note="Trusted base: the authoring model in harness/src/wl/c15.rs. Tables (add_table) and cross-process determinism are not driven; ids are compared between two runs in one process only.",
 )
+
+PROPS["C12"] = dict(
+    title="Font subsetting keeps every requested glyph intact",
+    level="exploration",
+    technique="differential monitor with an independent sfnt reader: subset_font / subset_font_by_gids run on real fonts with generated character and glyph sets; pyref/font.py parses original and subset (directory order, bounds, alignment, checksums, loca/glyf/maxp/hhea/hmtx consistency) and compares, for every requested character the original maps, the flattened outline (composites resolved with their transforms) and the advance width of the glyph the returned mapping points to",
+    stages=[rust(id="FNT", args={"flavor": "c12"}), py("pyref.checks.c12")],
+    rule="fonts: Roboto-Regular, DejaVu Sans / Serif-Italic / Mono-Bold / Condensed (composite-heavy, >5000 glyphs), SourceSans3 (CFF: mapping only); character sets of size 0,1,2,9,10,11,30,120,400 and the whole pool (ASCII, Latin-1, Greek, Cyrillic, typographic punctuation) incl. characters the font lacks; glyph sets of 0-400 random glyph ids. Non-trivial: every case; distinct by case",
+    assumptions=["the subsetter deliberately omits cmap / OS/2 / name and rewrites post: well-formed means the tables a PDF consumer needs (glyf head hhea hmtx loca maxp)", "CFF outlines are not interpreted: for CFF fonts only the glyph mapping is judged", "refusing a request with an error is accepted unless the set contains a character the font maps"],
+    floors={"quick": {"evaluations": 500, "distinct": 450, "counters": {"glyphs_compared": 8000, "subsets_parsed": 250}}, "thorough": {"evaluations": 30000, "distinct": 25000}},
+    level_text="Sampled sets on six real fonts; exact outline and metric comparison per requested glyph.",
+    level_note="Trusted base: pyref/font.py (self-tested on the fixtures). No generated (synthetic) fonts: composite nesting, loca formats and cmap formats are those of the fixtures.",
+)
+
+PROPS["C13"] = dict(
+    title="Text in embedded fonts is recoverable exactly",
+    level="exploration",
+    technique="round-trip monitor with an independent reader: documents authored with embedded custom fonts are written and read by pyref: the codes of every shown string go through the font's /ToUnicode CMap and must give the authored text; /W (or /DW) of each used CID must equal the original font's advance in 1/1000 em (+-1); for TrueType programs the embedded glyph selected through /CIDToGIDMap must have the flattened outline of the original glyph of that character (pyref/font.py); the library's own extraction must yield the same non-white-space characters",
+    stages=[rust(id="FNT", args={"flavor": "c13"}), py("pyref.checks.c13")],
+    rule="fonts: Roboto, four DejaVu faces, SourceSans3 (CFF); 1-3 pages, 1-6 shows per page of 1-24 characters over ASCII, Latin-1, Greek, Cyrillic and typographic punctuation, repeated characters, two embedded fonts in one document, sizes 9/12/18, sampled writer configurations. Non-trivial: every case; distinct by case",
+    assumptions=["characters the font does not map are not compared for width/outline", "CFF glyph programs are not interpreted (widths and ToUnicode are still judged)", "the library's extraction is compared as a multiset of non-white-space characters per page, with merge_hyphenated off (line-end hyphens are merged away by default, by design)"],
+    floors={"quick": {"evaluations": 300, "distinct": 280, "counters": {"shows_decoded": 800, "cids_checked": 5000, "outlines_compared": 3500}}, "thorough": {"evaluations": 20000, "distinct": 18000}},
+    level_text="Sampled documents on six real fonts; exact text, metric and outline comparison per used character.",
+    level_note="Trusted base: pyref/pdf.py, pyref/font.py, the ToUnicode reader in pyref/checks/c13.py. Astral characters and fonts with cmap formats other than 4/12 are not driven.",
+)
